@@ -10,3 +10,6 @@ mkdir -p evidence replays
 /venv/bin/python harness/genall.py
 cd lean
 lake build 2>&1 | tail -40
+# the driver scripts are interpreted (`lean --run`), but everything they import must be built
+DRV=$(grep -h '^import FimVerif' FimVerif/Drivers/C*.lean | awk '{print $2}' | sort -u | tr '\n' ' ')
+lake build $DRV 2>&1 | tail -20
